@@ -1,23 +1,31 @@
 ------------------------------- MODULE Ferrous -------------------------------
 (***************************************************************************)
 (* The server: numbered databases, connections, and the step relation      *)
-(* Step(S, c, a, tm, obs) = set of allowed outcomes of connection c        *)
-(* sending the argument vector a, observed within the time bracket tm.     *)
+(*   Step(S, c, a, tm, obs) = set of allowed outcomes [r, S, dv] of        *)
+(* connection c sending argument vector a within time bracket tm.          *)
 (*                                                                         *)
 (* S = [dbs   : 0..15 -> key space,                                        *)
-(*      conns : open connection id -> [db, ...]]                           *)
-(* An outcome is [r, S, dv]: expected reply, state afterwards, deviations. *)
+(*      conns : open connection id -> connection record,                   *)
+(*      pass  : NoPass | password bytes (requirepass)]                     *)
+(* connection record = [db, authed, multi, queue, qerr, watch]             *)
+(*   watch : <<db, key>> -> "clean" | "may" | "must"   (dirtiness since    *)
+(*           WATCH: nothing touched it / a no-op write addressed it /      *)
+(*           its value, existence or TTL changed)                          *)
 (***************************************************************************)
-EXTENDS Colls
+EXTENDS ZSets
 
 NDB == 16
 DBs == 0..(NDB - 1)
+NoPass == [k |-> "nopass"]
+NoObs == [t |-> "noobs"]
 
-NewConn == [db |-> 0]
-InitS == [dbs |-> [d \in DBs |-> EmptyK], conns |-> <<>>]
+NewConn(S) == [db |-> 0, authed |-> (S.pass = NoPass), multi |-> FALSE, queue |-> <<>>, qerr |-> FALSE,
+               watch |-> <<>>]
+InitS == [dbs |-> [d \in DBs |-> EmptyK], conns |-> <<>>, pass |-> NoPass]
 
 SOut(r, S) == {[r |-> r, S |-> S, dv |-> {}]}
 SFail(S) == SOut(RErr, S)
+SDev(name, r, S) == IF name \in Deviations THEN {[r |-> r, S |-> S, dv |-> {name}]} ELSE {}
 
 (* lift a single-database command outcome to the server state *)
 Lift(S, d, outs) == {[r |-> o.r, S |-> [S EXCEPT !.dbs[d] = o.K], dv |-> o.dv] : o \in outs}
@@ -25,10 +33,19 @@ Lift(S, d, outs) == {[r |-> o.r, S |-> [S EXCEPT !.dbs[d] = o.K], dv |-> o.dv] :
 DataCmd(name, a, K, tm, obs) ==
   IF name \in StringCommands THEN StringCmd(name, a, K, tm)
   ELSE IF name \in CollCommands THEN CollCmd(name, a, K, obs)
+  ELSE IF name \in ZSetCommands THEN ZSetCmd(name, a, K)
   ELSE Unspec(K)
 
-IsDataCmd(name) == name \in StringCommands \cup CollCommands
+IsDataCmd(name) == name \in StringCommands \cup CollCommands \cup ZSetCommands
 
+ReadOnlyCmds == {"GET", "MGET", "STRLEN", "GETRANGE", "EXISTS", "TYPE", "KEYS", "DBSIZE", "RANDOMKEY",
+  "TTL", "PTTL", "LLEN", "LRANGE", "LINDEX", "SMEMBERS", "SISMEMBER", "SCARD", "SUNION", "SINTER", "SDIFF",
+  "SRANDMEMBER", "HGET", "HMGET", "HGETALL", "HLEN", "HEXISTS", "HKEYS", "HVALS", "ZSCORE", "ZCARD", "ZRANK",
+  "ZREVRANK", "ZRANGE", "ZREVRANGE", "ZRANGEBYSCORE", "ZREVRANGEBYSCORE", "ZCOUNT", "XRANGE", "XREVRANGE",
+  "XLEN", "XREAD", "SCAN", "HSCAN", "SSCAN", "ZSCAN", "PING", "ECHO", "SELECT"}
+
+-----------------------------------------------------------------------------
+(* connection-level commands *)
 CmdSELECT(S, c, a) ==
   IF Len(a) # 2 THEN SFail(S)
   ELSE IF ~IsInt(a[2]) THEN SFail(S)
@@ -47,20 +64,132 @@ CmdFLUSHALL(S, a) ==
   IF Len(a) = 1 \/ (Len(a) = 2 /\ Upper(a[2]) \in {L_ASYNC, L_SYNC})
   THEN SOut(ROk, [S EXCEPT !.dbs = [d \in DBs |-> EmptyK]]) ELSE SFail(S)
 
+(* AUTH password — only the exact password authenticates; a failed AUTH changes nothing *)
+CmdAUTH(S, c, a) ==
+  IF Len(a) # 2 THEN SFail(S)
+  ELSE IF S.pass = NoPass THEN SFail(S)
+  ELSE IF a[2] = S.pass THEN SOut(ROk, [S EXCEPT !.conns[c].authed = TRUE])
+  ELSE SFail(S)
+
+-----------------------------------------------------------------------------
+(* WATCH bookkeeping *)
+EntryAt(S, d, k) == IF k \in DOMAIN S.dbs[d] THEN S.dbs[d][k] ELSE [t |-> "absent"]
+
+MustByName == {"SET", "GETSET", "SETEX", "PSETEX", "MSET"}
+Worse(x, y) == IF x = "must" \/ y = "must" THEN "must" ELSE IF x = "may" \/ y = "may" THEN "may" ELSE "clean"
+
+(* after a step S0 -> S1 made by a (non read-only) command `name a` executed in database d0 *)
+MarkWatch(S0, S1, d0, name, a, r) ==
+  LET named == {a[i] : i \in 2..Len(a)}
+      status(d, k) ==
+        IF EntryAt(S0, d, k) # EntryAt(S1, d, k) THEN "must"
+        ELSE IF name \in ReadOnlyCmds \/ r.t = "err" THEN "clean"
+        ELSE IF name = "FLUSHALL" \/ (name = "FLUSHDB" /\ d = d0) THEN "may"
+        ELSE IF d = d0 /\ k \in named THEN (IF name \in MustByName THEN "must" ELSE "may")
+        ELSE "clean"
+  IN [S1 EXCEPT !.conns = [x \in DOMAIN S1.conns |->
+        [S1.conns[x] EXCEPT !.watch = [w \in DOMAIN S1.conns[x].watch |->
+            Worse(S1.conns[x].watch[w], status(w[1], w[2]))]]]]
+
+CmdWATCH(S, c, a) ==
+  IF Len(a) < 2 THEN SFail(S)
+  ELSE IF S.conns[c].multi THEN SFail(S)
+  ELSE LET d == S.conns[c].db
+           new == {<<d, a[i]>> : i \in 2..Len(a)}
+           old == S.conns[c].watch
+       IN SOut(ROk, [S EXCEPT !.conns[c].watch =
+                       [w \in (DOMAIN old) \cup new |-> IF w \in DOMAIN old THEN old[w] ELSE "clean"]])
+
+CmdUNWATCH(S, c, a) ==
+  IF Len(a) # 1 THEN SFail(S) ELSE SOut(ROk, [S EXCEPT !.conns[c].watch = <<>>])
+
+CmdMULTI(S, c, a) ==
+  IF Len(a) # 1 THEN SFail(S)
+  ELSE IF S.conns[c].multi THEN SFail(S)
+  ELSE SOut(ROk, [S EXCEPT !.conns[c].multi = TRUE, !.conns[c].queue = <<>>, !.conns[c].qerr = FALSE])
+
+ClearTxn(S, c) == [S EXCEPT !.conns[c].multi = FALSE, !.conns[c].queue = <<>>, !.conns[c].qerr = FALSE,
+                            !.conns[c].watch = <<>>]
+
+CmdDISCARD(S, c, a) ==
+  IF Len(a) # 1 THEN SFail(S)
+  ELSE IF ~S.conns[c].multi THEN SFail(S)
+  ELSE SOut(ROk, ClearTxn(S, c))
+
+-----------------------------------------------------------------------------
+(* Immediate execution of one command (not the queueing decision). inTxn: executed as part of EXEC *)
+RECURSIVE Exec1(_, _, _, _, _, _)
+RECURSIVE RunQueue(_, _, _, _, _, _, _)
+
+(* run queue[i..] sequentially; acc = replies so far; result = set of [rs, S, dv] *)
+RunQueue(S, c, q, i, tm, obs, acc) ==
+  IF i > Len(q) THEN {[rs |-> acc.rs, S |-> S, dv |-> acc.dv]}
+  ELSE LET ob == IF obs.t = "arr" /\ Len(obs.v) = Len(q) THEN obs.v[i] ELSE NoObs
+       IN UNION { IF Match(o.r, ob) \/ ob = NoObs
+                  THEN RunQueue(o.S, c, q, i + 1, tm, obs, [rs |-> Append(acc.rs, o.r), dv |-> acc.dv \cup o.dv])
+                  ELSE {}
+                  : o \in Exec1(S, c, q[i], tm, ob, TRUE) }
+
+CmdEXEC(S, c, a, tm, obs) ==
+  IF Len(a) # 1 THEN SFail(S)
+  ELSE IF ~S.conns[c].multi THEN SFail(S)
+  ELSE LET cn == S.conns[c]
+           st == {cn.watch[w] : w \in DOMAIN cn.watch}
+           cleared == ClearTxn(S, c)
+           run == {[r |-> RArr(x.rs), S |-> x.S, dv |-> x.dv] :
+                     x \in RunQueue(cleared, c, cn.queue, 1, tm, obs, [rs |-> <<>>, dv |-> {}])}
+       IN IF cn.qerr THEN SOut(RErr, cleared)
+          ELSE IF "must" \in st THEN SOut(RNilArr, cleared)
+          ELSE IF "may" \in st THEN SOut(RNilArr, cleared) \cup run
+          ELSE run
+
+NameOf(a) == CmdName(Upper(a[1]))
+
+Exec1(S, c, a, tm, obs, inTxn) ==
+  LET name == NameOf(a)
+      d == S.conns[c].db
+      raw ==
+        IF IsDataCmd(name) THEN Lift(S, d, DataCmd(name, a, S.dbs[d], tm, obs))
+        ELSE CASE name = "SELECT" -> CmdSELECT(S, c, a)
+               [] name = "PING" -> CmdPING(S, a)
+               [] name = "ECHO" -> CmdECHO(S, a)
+               [] name = "FLUSHALL" -> CmdFLUSHALL(S, a)
+               [] name = "AUTH" -> CmdAUTH(S, c, a)
+               [] name = "MULTI" -> CmdMULTI(S, c, a)
+               [] name = "EXEC" -> (IF inTxn THEN SFail(S) ELSE CmdEXEC(S, c, a, tm, obs))
+               [] name = "DISCARD" -> CmdDISCARD(S, c, a)
+               [] name = "WATCH" -> CmdWATCH(S, c, a)
+               [] name = "UNWATCH" -> CmdUNWATCH(S, c, a)
+               [] name = "?" -> SFail(S)
+               [] OTHER -> SOut(RAny, S)
+  IN {[o EXCEPT !.S = MarkWatch(S, o.S, d, name, a, o.r)] : o \in raw}
+
+(* commands that are not queued inside MULTI *)
+TxnControl == {"MULTI", "EXEC", "DISCARD", "WATCH", "UNWATCH"}
+
+(* With a password configured an unauthenticated connection may only AUTH (PING/QUIT are harmless) *)
+AuthGate(S, c, a) ==
+  LET name == NameOf(a) IN
+  CASE name = "AUTH" -> CmdAUTH(S, c, a)
+    [] name = "PING" -> CmdPING(S, a) \cup SFail(S)
+    [] name = "QUIT" -> SOut(ROk, S)
+    [] OTHER -> SFail(S)
+
 Step(S, c, a, tm, obs) ==
   IF Len(a) = 0 THEN SFail(S)
-  ELSE LET name == CmdName(Upper(a[1]))
-           d == S.conns[c].db
-       IN
-    IF IsDataCmd(name) THEN Lift(S, d, DataCmd(name, a, S.dbs[d], tm, obs))
-    ELSE CASE name = "SELECT" -> CmdSELECT(S, c, a)
-           [] name = "PING" -> CmdPING(S, a)
-           [] name = "ECHO" -> CmdECHO(S, a)
-           [] name = "FLUSHALL" -> CmdFLUSHALL(S, a)
-           [] name = "?" -> SFail(S)
-           [] OTHER -> SOut(RAny, S)
+  ELSE LET name == NameOf(a) cn == S.conns[c] IN
+    IF S.pass # NoPass /\ ~cn.authed THEN AuthGate(S, c, a)
+    ELSE IF cn.multi /\ name \notin TxnControl
+    THEN (* queued; an unknown command may also be refused at once, which dooms the EXEC *)
+         SOut(RSt(L_QUEUED), [S EXCEPT !.conns[c].queue = Append(cn.queue, a)])
+         \cup (IF name = "?" THEN SOut(RErr, [S EXCEPT !.conns[c].qerr = TRUE]) ELSE {})
+    ELSE Exec1(S, c, a, tm, obs, FALSE)
 
-(* expiry of entries of database d as seen by a request in tm *)
-PurgeDb(S, d, tm) == {[S EXCEPT !.dbs[d] = K2] : K2 \in PurgeChoices(S.dbs[d], tm)}
+(* expiry of entries of database d as seen by a request in tm; watchers see the removal *)
+PurgeDb(S, d, tm) ==
+  {MarkWatch(S, [S EXCEPT !.dbs[d] = K2], d, "GET", <<>>, RNil) : K2 \in PurgeChoices(S.dbs[d], tm)}
+
+(* a connection goes away: its transaction and watches vanish with it *)
+DropConn(S, c) == [S EXCEPT !.conns = [x \in (DOMAIN S.conns) \ {c} |-> S.conns[x]]]
 
 =============================================================================
